@@ -37,14 +37,14 @@ class SimFile:
                 self._apply(data[:len(data) // 2])
             fs.faults.record(f, exc, sim.stamp(), op='write', path=self.name)
             if f.get('sticky'):
-                # the condition persists (disk full, quota, file size limit):
-                # every later attempt to get buffered data out fails the same way
-                fs.sticky_error = exc
+                # the condition persists for this file (file size limit, quota):
+                # every later attempt to get its buffered data out fails the same way
+                fs.sticky[self.name] = exc
                 self._buf.append((self._pos, bytes(data)))
                 self._buffered += len(data)
             raise exc
-        if fs.sticky_error is not None and not self._special:
-            raise fs.sticky_error
+        if self.name in fs.sticky and not self._special:
+            raise fs.sticky[self.name]
         self._apply(data)
         return len(data)
 
@@ -63,8 +63,8 @@ class SimFile:
     def _flush(self):
         if not self._buf:
             return
-        if self.fs.sticky_error is not None:
-            raise self.fs.sticky_error
+        if self.name in self.fs.sticky:
+            raise self.fs.sticky[self.name]
         node = self._node
         n = 0
         for pos, data in self._buf:
@@ -187,7 +187,7 @@ class SimFS:
         self.open_handles = set()
         self.mutations = 0
         self.buffer_size = getattr(world, 'knobs', {}).get('fs_buffer', 8192)
-        self.sticky_error = None
+        self.sticky = {}      # path -> the error every further write-out raises
 
     def dest_of(self, path):
         """The tracked destination a path belongs to (itself or its temp)."""
